@@ -73,7 +73,7 @@ ASSUMPTIONS = [
     "seen, not triaged); nested keys below class-typed options (init_args) are not generated",
     "the text '--' is not used as a value (argparse removes it) and bare NoneType is not used as a type hint",
 ]
-FINDING_CLASSES = {1: "none-unchecked", 3: "literal-eq-channels", 4: "jsonnet-numbers", 7: "nested-item-no-string-fallback"}   # 2 (clash-key-unadapted) repaired
+FINDING_CLASSES = {1: "none-unchecked", 3: "literal-eq-channels", 4: "jsonnet-numbers"}   # 2 (clash-key-unadapted) and 7 (nested-item-no-string-fallback) repaired
 # When fixes/C05-clash-key-unadapted.patch is applied in /repo:  JUDGE = "judge_fixed"  and drop class 2 above.
 JUDGE = "judge_fixed"   # /repo 0aaec05 (clash-key-unadapted repaired)
 
